@@ -385,6 +385,7 @@ func runC04(r *Report) {
 		}
 	}
 	if vm := r.need("R-C04-2", ccPkg, "Service.ValidateMapping"); vm != nil {
+		gets := Calls(vm, false, "GetPortMapping")
 		for _, ret := range Returns(vm) {
 			if RetErrKind(ret) != "nil" {
 				continue
@@ -392,8 +393,24 @@ func runC04(r *Report) {
 			c, pol, found := CallFact(ret.Block(), "PortMapping.CanBeAccessedBy")
 			ok := found && pol && originSummary(Arg(c, 0)) == "param:clientID"
 			r.Ob("R-C04-2", ret.Pos(), ok, "ValidateMapping succeeds only under CanBeAccessedBy(clientID)==true", "ValidateMapping", "predicate")
+			// ... evaluated on the mapping as it is stored NOW: the mapping judged (and returned) is the
+			// result of a repository read made by this very call for the id asked about (a remembered
+			// copy keeps authorising after another node revoked, disabled or deleted the mapping)
+			fresh := false
+			if found {
+				for _, g := range gets {
+					if ErrOK(ret.Block(), g) && valueIsResultOf(Recv(c), g, 0) && originSummary(Arg(g, 0)) == "param:mappingID" &&
+						valueIsResultOf(RetVal(ret, 0), g, 0) {
+						fresh = true
+					}
+				}
+			}
+			r.Ob("R-C04-2", ret.Pos(), fresh, "the mapping ValidateMapping judges and returns is read from the repository by this call, for the id asked about (no remembered copy)", "ValidateMapping", "judges-fresh-read")
 		}
 	}
+	// the identity HandleTunnelOpen relies on (GetClientID() != 0 means authenticated) is only ever
+	// written at proof points: the same who-may-grant rule as C03, a necessary condition here
+	checkIdentityWriters(r, "R-C04-1")
 
 	// ---- R-C04-4 model predicates -----------------------------------------------------------------
 	const modPkg = "internal/cloud/models"
